@@ -37,6 +37,7 @@ RULE += ' ' + "Also: arbitrary single-dash groups mixing v q f b with 1 0 W (tdd
 RULE += ' ' + 'Round 6: every third test method is wrapped by a functools.wraps decorator with @tag above it, every third with @tag beneath it.'
 RULE += ' ' + 'Round 7: one class in nine has no test methods (tagged or not); such a class holds no tagged tests.'
 RULE += ' ' + 'Round 8: the long options written after the class names.'
+RULE += ' ' + 'Round 8 (pytest side): with an even number of classes the collection holds a second file, a copy of the module under another name - the same class names in two modules are different classes, and both are listed.'
 ASSUMPTIONS = ['naming an individual method, tdda single-dash flags after a '
                'class name, and tagging a base class that has subclasses are '
                'not generated (left unspecified by the statement)']
@@ -409,15 +410,43 @@ class _Config(object):
         return self.opts.get(name, default)
 
 
-def check_pytest_tagged(out, desc, mod, modname, exp, both=False):
+def check_pytest_tagged(out, desc, mod, modname, exp, both=False,
+                        modpath=None):
+    from tdda.referencetest import referencepytest
+    mods = [(mod, modname)]
+    twin = None
+    if modpath and len(desc['classes']) % 2 == 0:
+        # a second test file, a copy of the first under another name: the
+        # same class names in two modules are different classes
+        twin = modname + '_twin'
+        spec = importlib.util.spec_from_file_location(twin, modpath)
+        mod2 = importlib.util.module_from_spec(spec)
+        sys.modules[twin] = mod2
+        try:
+            spec.loader.exec_module(mod2)
+            mods.append((mod2, twin))
+            out.label('pytest-tagged:two-files-same-class-names')
+        except Exception:
+            sys.modules.pop(twin, None)
+            twin = None
+    try:
+        _check_pytest_tagged(out, desc, mods, exp, both)
+    finally:
+        if twin:
+            sys.modules.pop(twin, None)
+
+
+def _check_pytest_tagged(out, desc, mods, exp, both):
     from tdda.referencetest import referencepytest
     items = []
-    for c in desc['classes']:
-        cls = getattr(mod, c['name'])
-        names = sorted(n for n in dir(cls) if n.startswith('test_'))
-        for n in names:
-            inst = cls(n)
-            items.append(_Item(getattr(inst, n), '%s.%s' % (c['name'], n)))
+    for (mod, _) in mods:
+        for c in desc['classes']:
+            cls = getattr(mod, c['name'])
+            names = sorted(n for n in dir(cls) if n.startswith('test_'))
+            for n in names:
+                inst = cls(n)
+                items.append(_Item(getattr(inst, n),
+                                   '%s.%s' % (c['name'], n)))
     cfg = (_Config(**{'--istagged': True}) if exp['mode'] == 'list'
            else _Config(**{'--tagged': True}))
     if both:        # both options given: listing wins, as on the command line
@@ -436,13 +465,14 @@ def check_pytest_tagged(out, desc, mod, modname, exp, both=False):
                     + r.detail())
         return
     kept = sorted(i.name for i in items)
-    if kept != exp['executed']:
+    if kept != sorted(list(exp['executed']) * len(mods)):
         out.violate('pytest-tagged-selection', exp['mode'],
                     'referencepytest.tagged kept %r, expected %r'
                     % (kept, exp['executed']))
     if exp['mode'] == 'list':
         named = set(ln.strip() for ln in printed.split('\n') if ln.strip())
-        want = set('%s.%s' % (modname, c) for c in exp['listed'])
+        want = set('%s.%s' % (mn, c) for (_, mn) in mods
+                   for c in exp['listed'])
         if named != want:
             out.violate('pytest-tagged-selection', 'listed',
                         'referencepytest.tagged listed %r, classes with '
@@ -572,7 +602,8 @@ def run(case, ctx):
         fl = [tdda_flag(f) for f in argv['flags'] if tdda_flag(f)]
         check_pytest_tagged(out, desc, mod, modname, exp,
                             both=(any(t[0] for t in fl)
-                                  and any(t[1] for t in fl)))
+                                  and any(t[1] for t in fl)),
+                            modpath=modpath)
     if case.get('subprocess'):
         out.label('subprocess-sample')
         env = dict(os.environ, PYTHONPATH=repo_root())
